@@ -22,6 +22,7 @@ package main
 
 import (
 	"bytes"
+	"context"
 	"encoding/json"
 	"fmt"
 	"os"
@@ -225,6 +226,10 @@ func c08HasSortableGroup(ns []c08Node) bool {
 // ---- one log call through the public API ----
 var c08EPs = []string{"Info", "Warn", "Error", "Debug", "Trace", "Print", "OK", "Success", "Fail"}
 
+// the frame test also goes through the two entry points that hand NO attribute list to the formatter: the
+// std-log bridge and WriteThru with nil attributes (their records carry the logger's attributes only)
+var c08FrameEPs = append(append([]string{}, c08EPs...), "Bridge", "ThruNil")
+
 func c08Level(ep string) slog.Level {
 	switch ep {
 	case "Warn":
@@ -250,6 +255,10 @@ func c08Level(ep string) slog.Level {
 // the same statement serves the sequential twin and the concurrent run (same caller frame)
 func c08Call(e *slog.Entry, ep string, msg string, args []any) {
 	switch ep {
+	case "Bridge":
+		slog.NewLogLogger(e, slog.InfoLevel).Print(msg)
+	case "ThruNil":
+		e.WriteThru(context.Background(), slog.InfoLevel, time.Now(), 0, msg, nil)
 	case "Warn":
 		e.Warn(msg, args...)
 	case "Error":
@@ -333,7 +342,7 @@ type c08FrameCase struct {
 var c08FrameDefect bool // the frame test saw a shared input change in this run
 
 func c08GenFrame(r *Rng) c08FrameCase {
-	fc := c08FrameCase{Mode: "frame", Form: r.Intn(4), EP: c08EPs[r.Intn(len(c08EPs))], Caller: r.Chance(30)}
+	fc := c08FrameCase{Mode: "frame", Form: r.Intn(4), EP: c08FrameEPs[r.Intn(len(c08FrameEPs))], Caller: r.Chance(30)}
 	if r.Chance(60) {
 		fc.LAttrs = c08DropNils(c08GenAttrs(r, 0, 2, 3, false, 35))
 	}
@@ -492,6 +501,13 @@ func c08FrameCorpus() []c08FrameCase {
 			// an earlier duplicate of a group is never printed: its items must stay in both variants
 			c08FrameCase{Mode: "frame", Args: []GAttr{grp("g", ctor, leaf("z", 1), leaf("a", 2)), grp("g", ctor, leaf("q", 1), leaf("p", 2))}, Form: 2, EP: "Info", Order: order},
 			c08FrameCase{Mode: "frame", Args: []GAttr{grp("g", ctor, leaf("c", 1), leaf("c", 2), leaf("b", 3), leaf("b", 4), leaf("a", 5), leaf("a", 6), leaf("d", 7))}, Form: 0, EP: "Print", Order: order},
+		)
+	}
+	// the entry points that pass no attribute list: the logger's own (unsorted, duplicated) attributes must stay as they are
+	for _, ep := range []string{"Bridge", "ThruNil"} {
+		out = append(out,
+			c08FrameCase{Mode: "frame", LAttrs: []GAttr{leaf("z", 1), leaf("a", 2), leaf("m", 3), leaf("a", 4)}, EP: ep, Order: order},
+			c08FrameCase{Mode: "frame", LAttrs: []GAttr{leaf("b", 1), grp("lg", 0, leaf("y", 1), leaf("x", 2)), leaf("a", 2)}, EP: ep, Order: order, Caller: true},
 		)
 	}
 	return out
